@@ -1,1 +1,260 @@
-(* C05 - to be filled *)
+(* C05 - Linker symbols are complete, named as documented, and mutually consistent.
+   Only statements, each closed by [exact]; see Proofs/C05.v. *)
+From Slinky Require Import Model.Types Model.Runtime Model.Style Model.Script Model.Writer Model.LdSem.
+From Slinky Require Import Spec.C13 Spec.C09 Spec.C05 Proofs.C09 Proofs.C05.
+From Coq Require Import ZArith.
+
+(* ---------- the names (table obligation) ---------- *)
+
+(* every name function of Model/Style.v (driven by the templates regenerated from the Rust source)
+   spells what the documentation says, for both styles and all arguments *)
+Theorem C05_names :
+  (forall sty seg, segment_rom_start sty seg = doc_rom_start sty seg) /\
+  (forall sty seg, segment_rom_end sty seg = doc_rom_end sty seg) /\
+  (forall sty seg, segment_rom_size sty seg = doc_rom_size sty seg) /\
+  (forall sty seg, segment_vram_start sty seg = doc_vram_start sty seg) /\
+  (forall sty seg, segment_vram_end sty seg = doc_vram_end sty seg) /\
+  (forall sty seg, segment_vram_size sty seg = doc_vram_size sty seg) /\
+  (forall sty seg sec, segment_section_start sty seg sec = doc_section_start sty seg sec) /\
+  (forall sty seg sec, segment_section_end sty seg sec = doc_section_end sty seg sec) /\
+  (forall sty seg sec, segment_section_size sty seg sec = doc_section_size sty seg sec) /\
+  (forall sty name, linker_offset sty name = doc_linker_offset sty name) /\
+  (forall sty name, vram_class_start sty name = doc_class_start sty name) /\
+  (forall sty name, vram_class_end sty name = doc_class_end sty name) /\
+  (forall sty name, vram_class_size sty name = doc_class_size sty name) /\
+  (forall seg noload, kind_name seg noload = doc_kind_name (sg_name seg) noload).
+Proof. exact names_table. Qed.
+
+Example C05_names_example :
+  doc_section_start Splat "boot" ".text" = "boot_TEXT_START" /\
+  doc_section_end Makerom "boot" ".rodata" = "_bootSegmentRoDataEnd" /\
+  doc_section_size Makerom "boot" ".bss" = "_bootSegmentBssSize" /\
+  doc_vram_start Splat (doc_kind_name "boot" true) = "boot_noload_VRAM" /\
+  doc_linker_offset Makerom "mid" = "_midOffset" /\
+  doc_class_size Splat "overlay" = "overlay_VRAM_CLASS_SIZE".
+Proof. vm_compute. repeat split; reflexivity. Qed.
+
+(* ---------- the symbols of an emitted segment (script level) ---------- *)
+
+(* the recorded symbols of an included segment are, in order, exactly the documented families; the
+   symbols inside a group are linker offsets of the segment's included linker-offset entries (C02
+   says which ones: those whose section is the one being emitted) *)
+Theorem C05_segment_symbols : forall rt st cfg classes seg ws s ws',
+  add_segment rt st cfg classes seg ws = Ok (s, ws') ->
+  should_emit rt (sg_conds seg) = true ->
+  exists alloc noload,
+    map fst alloc = alloc_sections seg /\ map fst noload = noload_sections seg /\
+    Forall (fun so => Forall (doc_offset_of rt (linker_symbols_style st) seg) (snd so)) (alloc ++ noload) /\
+    recorded_syms s =
+    expected_segment_symbols (linker_symbols_style st) cfg seg
+      (match sg_vram_class seg with Some cn => negb (mem_str cn (ws_emitted ws)) | None => false end)
+      alloc noload.
+Proof. exact segment_symbols. Qed.
+
+Example C05_segment_symbols_example :
+  exists s ws', add_segment ex_rt ex_settings cfg_normal (doc_vram_classes ex_doc)
+                            (ex_segment "ovl_a" [ex_obj "a.o"; ex_offset ".data" "mid"] (Some "overlay") None no_conds)
+                            ws0 = Ok (s, ws') /\
+    recorded_syms s =
+    ["overlay_VRAM_CLASS_START"; "overlay_VRAM_CLASS_END"; "ovl_a_ROM_START"; "ovl_a_VRAM"; "ovl_a_alloc_VRAM";
+     "ovl_a_TEXT_START"; "ovl_a_TEXT_END"; "ovl_a_TEXT_SIZE";
+     "ovl_a_DATA_START"; "mid_OFFSET"; "ovl_a_DATA_END"; "ovl_a_DATA_SIZE";
+     "ovl_a_SDATA_START"; "ovl_a_SDATA_END"; "ovl_a_SDATA_SIZE";
+     "ovl_a_alloc_VRAM_END"; "ovl_a_alloc_VRAM_SIZE"; "ovl_a_noload_VRAM";
+     "ovl_a_BSS_START"; "ovl_a_BSS_END"; "ovl_a_BSS_SIZE"; "ovl_a_noload_VRAM_END"; "ovl_a_noload_VRAM_SIZE";
+     "ovl_a_VRAM_END"; "ovl_a_VRAM_SIZE"; "ovl_a_ROM_END"; "ovl_a_ROM_SIZE"].
+Proof. eexists. eexists. split; vm_compute; reflexivity. Qed.
+
+Local Open Scope Z_scope.
+
+(* ---------- size = end - start (link level) ---------- *)
+
+(* `end_ = value; size = ABSOLUTE(end_ - start)` inside an output section, from any state in which
+   [start] has a value (this pass, the previous pass or an object) and [value] can be computed.
+   Side condition: the size symbol is not the end symbol.  s' is the value of [start] afterwards. *)
+Theorem C05_size_is_end_minus_start : forall env senv ext final vma sub outsec start end_ size value ss s v,
+  eval_expr env senv ext (s_st ss) (vma + s_off ss) value = Ok v ->
+  sym_lookup start (s_st ss) env ext = Some s ->
+  size <> end_ ->
+  let ss' := fold_left (exec_sec_stmt env senv ext final vma sub outsec) (sym_end_size start end_ size value) ss in
+  exists s',
+    lookup end_ (l_syms (s_st ss')) = Some v /\
+    lookup size (l_syms (s_st ss')) = Some (v - s') /\
+    (start <> size -> sym_lookup start (s_st ss') env ext = Some s') /\
+    (start <> end_ -> s' = s) /\
+    s_off ss' = s_off ss.
+Proof. exact size_is_end_minus_start_sec. Qed.
+
+(* the same at the top level; there an assignment to "." would move the location counter instead *)
+Theorem C05_size_is_end_minus_start_top : forall env senv ext final start end_ size value st s v,
+  String.eqb end_ "." = false -> String.eqb size "." = false ->
+  eval_expr env senv ext st (l_dot st) value = Ok v ->
+  sym_lookup start st env ext = Some s ->
+  size <> end_ ->
+  let st' := fold_left (exec_top_stmt env senv ext final) (sym_end_size start end_ size value) st in
+  exists s',
+    lookup end_ (l_syms st') = Some v /\
+    lookup size (l_syms st') = Some (v - s') /\
+    (start <> size -> sym_lookup start st' env ext = Some s') /\
+    (start <> end_ -> s' = s) /\
+    l_dot st' = l_dot st.
+Proof. exact size_is_end_minus_start_top. Qed.
+
+(* the generated names meet the side conditions *)
+Theorem C05_names_distinct : forall sty n s,
+  segment_section_start sty n s <> segment_section_end sty n s /\
+  segment_section_start sty n s <> segment_section_size sty n s /\
+  segment_section_end sty n s <> segment_section_size sty n s /\
+  segment_vram_start sty n <> segment_vram_end sty n /\
+  segment_vram_start sty n <> segment_vram_size sty n /\
+  segment_vram_end sty n <> segment_vram_size sty n /\
+  segment_rom_start sty n <> segment_rom_end sty n /\
+  segment_rom_start sty n <> segment_rom_size sty n /\
+  segment_rom_end sty n <> segment_rom_size sty n /\
+  String.eqb (segment_section_end sty n s) "." = false /\ String.eqb (segment_section_size sty n s) "." = false /\
+  String.eqb (segment_vram_end sty n) "." = false /\ String.eqb (segment_vram_size sty n) "." = false /\
+  String.eqb (segment_rom_end sty n) "." = false /\ String.eqb (segment_rom_size sty n) "." = false.
+Proof. exact names_distinct. Qed.
+
+Theorem C05_class_size : forall env senv ext final sty cn st a b,
+  sym_lookup (vram_class_end sty cn) st env ext = Some a ->
+  sym_lookup (vram_class_start sty cn) st env ext = Some b ->
+  lookup (vram_class_size sty cn)
+         (l_syms (exec_top_stmt env senv ext final st
+                    (linker_symbol (vram_class_size sty cn) (ESub (vram_class_end sty cn) (vram_class_start sty cn))))) =
+  Some (a - b).
+Proof. exact class_size_top. Qed.
+
+Example C05_size_example :
+  let ss' := fold_left (exec_sec_stmt [] [] [] true 1000 None ".boot")
+                       (sym_end_size "boot_TEXT_START" "boot_TEXT_END" "boot_TEXT_SIZE" EDot)
+                       (SState 40 false (set_sym "boot_TEXT_START" 1008 false c09_state)) in
+  lookup "boot_TEXT_END" (l_syms (s_st ss')) = Some 1040 /\ lookup "boot_TEXT_SIZE" (l_syms (s_st ss')) = Some 32.
+Proof. vm_compute. split; reflexivity. Qed.
+
+(* ---------- a group brackets exactly what it places (link level) ---------- *)
+
+(* one group executed inside an output section: START <= END, SIZE = END - START, everything the group
+   places lies in [START, END] in non-decreasing order, and every symbol its files define is a linker
+   offset of the segment with a value in [START, END] *)
+Theorem C05_group_bracket :
+  forall env senv ext final vma sub outsec rt sty cfg seg sections base section ws files ws' ss,
+  section_syms cfg = true ->
+  emit_section rt sty cfg seg sections base section ws = Ok (files, ws') ->
+  nonneg_sizes (l_remaining (s_st ss)) ->
+  let ss' := fold_left (exec_sec_stmt env senv ext final vma sub outsec)
+                       (section_symbol_start rt sty cfg seg section ++ files ++
+                        section_symbol_end sty cfg seg section) ss in
+  exists S E new news rest,
+    lookup (segment_section_start sty (sg_name seg) section) (l_syms (s_st ss')) = Some S /\
+    lookup (segment_section_end sty (sg_name seg) section) (l_syms (s_st ss')) = Some E /\
+    lookup (segment_section_size sty (sg_name seg) section) (l_syms (s_st ss')) = Some (E - S) /\
+    vma + s_off ss <= S /\ S <= E /\ E = vma + s_off ss' /\
+    l_placed (s_st ss') = (l_placed (s_st ss) ++ new)%list /\
+    Forall (placed_between S E outsec) new /\
+    nondecreasing (map pl_addr new) /\
+    l_syms (s_st ss') =
+      ((segment_section_size sty (sg_name seg) section, E - S) ::
+       (segment_section_end sty (sg_name seg) section, E) :: news ++
+       (segment_section_start sty (sg_name seg) section, S) :: rest)%list /\
+    Forall (offset_def sty (fun name => In name (segment_offset_names rt seg)) S E) news /\
+    nonneg_sizes (l_remaining (s_st ss')).
+Proof. exact group_bracket. Qed.
+
+(* a linker offset lies between its neighbours *)
+Theorem C05_offset_between_neighbours : forall env senv ext final vma sub outsec pre h r name post ss,
+  nonneg_sizes (l_remaining (s_st ss)) ->
+  let ss1 := fold_left (exec_sec_stmt env senv ext final vma sub outsec) pre ss in
+  let ss2 := exec_sec_stmt env senv ext final vma sub outsec ss1 (SAssign false h r name EDot) in
+  let ss' := fold_left (exec_sec_stmt env senv ext final vma sub outsec) post ss2 in
+  ss' = fold_left (exec_sec_stmt env senv ext final vma sub outsec)
+                  (pre ++ [SAssign false h r name EDot] ++ post)%list ss /\
+  exists v new1 new2,
+    lookup name (l_syms (s_st ss2)) = Some v /\
+    l_placed (s_st ss') = (l_placed (s_st ss) ++ new1 ++ new2)%list /\
+    Forall (fun p => pl_addr p <= v) new1 /\ Forall (fun p => v <= pl_addr p) new2 /\
+    vma + s_off ss <= v /\ v <= vma + s_off ss'.
+Proof. exact offset_between_neighbours. Qed.
+
+Example C05_group_bracket_example :
+  let ss' := fold_left (exec_sec_stmt [] [] [] true 1000 None ".boot")
+                       (section_symbol_start (Runtime [] false) Splat cfg_normal c09_segment ".text" ++
+                        [SInput false "a.o" None ".text" true; SAssign false false true "mid_OFFSET" EDot;
+                         SInput false "b.o" None ".text" true] ++
+                        section_symbol_end Splat cfg_normal c09_segment ".text")%list
+                       (SState 0 false c09_state) in
+  map pl_addr (l_placed (s_st ss')) = [1000; 1010] /\
+  l_syms (s_st ss') = [("boot_TEXT_SIZE", 16); ("boot_TEXT_END", 1016); ("mid_OFFSET", 1010);
+                       ("boot_TEXT_START", 1000); ("__romPos", 7)].
+Proof. vm_compute. split; reflexivity. Qed.
+
+(* ---------- the segment brackets its groups (link level) ---------- *)
+
+(* an output section whose start address can be computed: afterwards "." = vma + size, size >= 0, and
+   everything it placed lies in [vma, vma + size], in order, under its name *)
+Theorem C05_outsec_bracket : forall env senv ext final name addr at_ noload sub body st vma,
+  nonneg_sizes (l_remaining st) ->
+  outsec_vma env senv ext addr sub body st = Ok vma ->
+  let st' := exec_outsec env senv ext final name addr at_ noload sub body st in
+  exists size new lma c,
+    0 <= size /\ l_dot st' = vma + size /\
+    l_secs st' = (l_secs st ++ [OSec name vma size lma noload c])%list /\
+    l_placed st' = (l_placed st ++ new)%list /\
+    Forall (placed_between vma (vma + size) name) new /\
+    nondecreasing (map pl_addr new) /\
+    nonneg_sizes (l_remaining st') /\ l_discarded st' = l_discarded st.
+Proof. exact outsec_post. Qed.
+
+(* the two halves of a segment, executed at the top level: the noload half is laid after the
+   allocatable one (its start is the aligned location counter the allocatable half left), each half
+   contains what it placed, and "." ends at the end of the noload half - which X_VRAM_END then takes,
+   aligned upwards (C09_segment_rom_vram_end: l_dot <= vend).  When the address expression of the
+   allocatable half cannot be evaluated in this pass ld reports it and nothing is placed there. *)
+Theorem C05_segment_bracket : forall env senv ext final rt st cfg seg ws s1 ws1 s2 ws2 lst,
+  write_segment rt st cfg seg (alloc_sections seg) false ws = Ok (s1, ws1) ->
+  write_segment rt st cfg seg (noload_sections seg) true ws1 = Ok (s2, ws2) ->
+  nonneg_sizes (l_remaining lst) ->
+  let lst' := fold_left (exec_top_stmt env senv ext final) (s1 ++ [SBlank] ++ s2)%list lst in
+  exists new1 new2 o2,
+    l_placed lst' = (l_placed lst ++ new1 ++ new2)%list /\
+    os_name o2 = ("." ++ sg_name seg ++ ".noload")%string /\ 0 <= os_size o2 /\
+    l_dot lst' = os_vma o2 + os_size o2 /\
+    Forall (placed_between (os_vma o2) (os_vma o2 + os_size o2) (os_name o2)) new2 /\
+    nondecreasing (map pl_addr new2) /\
+    ((new1 = [] /\ l_secs lst' = (l_secs lst ++ [o2])%list /\ l_dot lst <= os_vma o2) \/
+     (exists o1, l_secs lst' = (l_secs lst ++ [o1; o2])%list /\
+                 os_name o1 = ("." ++ sg_name seg)%string /\ 0 <= os_size o1 /\
+                 Forall (placed_between (os_vma o1) (os_vma o1 + os_size o1) (os_name o1)) new1 /\
+                 nondecreasing (map pl_addr new1) /\
+                 os_vma o1 + os_size o1 <= os_vma o2)) /\
+    nonneg_sizes (l_remaining lst').
+Proof. exact halves_bracket. Qed.
+
+(* ---------- KNOWN FINDING: the allocatable start symbol can exceed the allocatable end ---------- *)
+
+(* `X_alloc_VRAM = .` is written BEFORE the header of the output section.  For a segment with an
+   explicit address "." is still the location counter left by the previous segment: here segment b
+   (fixed_vram 0x200, after segment a at 0x1000) gets b_alloc_VRAM = 0x1100 > b_alloc_VRAM_END = 0x210
+   and a negative b_alloc_VRAM_SIZE, while b_VRAM = 0x200.  "start never exceeds end" does not hold
+   for the allocatable-kind symbols. *)
+Theorem C05_refuted_alloc_start :
+  exists w, gen_normal c05_doc (Runtime [] false) = Ok w /\
+    let st := layout (wo_script w) c05_universe [] in
+    l_errors st = [] /\
+    lookup (segment_vram_start Splat (kind_name (c05_seg "b" 512%N [c05_obj "b.o"]) false)) (l_syms st) = Some 4352 /\
+    lookup (segment_vram_end Splat (kind_name (c05_seg "b" 512%N [c05_obj "b.o"]) false)) (l_syms st) = Some 528 /\
+    lookup (segment_vram_size Splat (kind_name (c05_seg "b" 512%N [c05_obj "b.o"]) false)) (l_syms st) = Some (-3824) /\
+    lookup (segment_vram_start Splat "b") (l_syms st) = Some 512.
+Proof. exact refuted_alloc_start. Qed.
+
+Print Assumptions C05_names.
+Print Assumptions C05_segment_symbols.
+Print Assumptions C05_size_is_end_minus_start.
+Print Assumptions C05_size_is_end_minus_start_top.
+Print Assumptions C05_names_distinct.
+Print Assumptions C05_class_size.
+Print Assumptions C05_group_bracket.
+Print Assumptions C05_offset_between_neighbours.
+Print Assumptions C05_outsec_bracket.
+Print Assumptions C05_segment_bracket.
+Print Assumptions C05_refuted_alloc_start.
